@@ -196,7 +196,6 @@ func (x *scriptRun) open(e int) {
 	before := x.r.openCount(e)
 	ctx, cancel := context.WithCancel(context.Background())
 	po := &pendingOpen{cancel: cancel, ch: make(chan callResult, 1), done: make(chan struct{})}
-	x.r.add(map[string]any{"ev": "Call", "e": e, "op": "open", "s": 0, "k": 0, "d": []int{}, "t": nowMs()})
 	m := x.p.mux[e]
 	go func() {
 		s, err := m.OpenStream(ctx)
@@ -207,6 +206,8 @@ func (x *scriptRun) open(e int) {
 		return x.r.openCount(e) > before || isClosedChan(m.Closed()) || isClosedChan(po.done)
 	})
 	po.id = x.r.openID(e, before)
+	// recorded once the identifier is known from the tap (0: no open message appeared)
+	x.r.add(map[string]any{"ev": "Call", "e": e, "op": "open", "s": po.id, "k": 0, "d": []int{}, "t": nowMs()})
 	if po.id == 0 {
 		// no open message: the call must have failed at once
 		x.finishOpen(e, po, opWatchdog)
@@ -234,6 +235,27 @@ func (x *scriptRun) finishOpen(e int, po *pendingOpen, wait time.Duration) bool 
 	case <-t.C:
 		return false
 	}
+}
+
+// openCancelled calls OpenStream with a context that is already cancelled.
+func (x *scriptRun) openCancelled(e int) {
+	before := x.r.openCount(e)
+	ctx, cancel := context.WithCancel(context.Background())
+	cancel()
+	m := x.p.mux[e]
+	res := watchdog(opWatchdog, func() callResult {
+		s, err := m.OpenStream(ctx)
+		return callResult{stream: s, err: err}
+	})
+	// if the call got as far as queuing its open message, the message shows up on the tap shortly
+	waitUntil(2*time.Millisecond, func() bool { return x.r.openCount(e) > before })
+	id, sid := x.r.openID(e, before), 0
+	if res.stream != nil { // cannot happen with a cancelled context unless the select favoured establishment
+		sid = x.r.sid(streamIDu(res.stream))
+		x.streams[e][sid] = res.stream
+	}
+	x.r.add(map[string]any{"ev": "Ret", "e": e, "op": "open", "s": id, "sid": sid, "k": 0, "n": 0,
+		"d": []int{}, "err": kindOf(res), "pre": true, "t": nowMs()})
 }
 
 func (x *scriptRun) accept(e int) {
@@ -372,6 +394,8 @@ func runScript(cid string, in scriptIn) *recorder {
 		switch st.Op {
 		case "open":
 			x.open(e)
+		case "openc":
+			x.openCancelled(e)
 		case "openret":
 			if po := x.pend[e][st.S]; po == nil {
 				x.skip(st, "no pending open")
